@@ -201,6 +201,10 @@ class Family:
     def used_nontrivially(self, dec):
         return {}
 
+    def rule_suffix(self, req):
+        """request class appended to completeness rule names (lets a known finding be matched narrowly)"""
+        return ""
+
 
 _PRODS = {}
 
@@ -711,6 +715,9 @@ class Gowin1(Family):
 
     def primary(self, req):
         return max(f for f, p, m in req.outs)
+
+    def rule_suffix(self, req):
+        return "" if req.outs[0][0] == self.primary(req) else ".unordered"     # first output is not the highest one
 
     def structure(self, req):
         """port assignment of the documented structure when every output is an exact legal ratio of the highest
